@@ -463,3 +463,10 @@ Example C03_walk_example_x :
   t2j_walk_rootx f64_exact_lexeme (2 ^ 7) 3 (DStruct [({| f_id := 0; f_key := [97]; f_req := 0; f_flags := 0 |}, DScalar T_I32)])
                  (encode (VStruct [(0, VI32 5)])) = Some (WText [123; 34; 97; 34; 58; 53; 125]).
 Proof. vm_compute. split; reflexivity. Qed.
+(* (G) the finite test of conv/t2j (the condition in front of EncodeFloat64 in doRecurse, case DOUBLE; gen/Gen_t2jfinite.v from the Go
+   text on every build) is the negation of Num.f64_is_finite: the doubles for which the model's jexp_finite fails *)
+From DG Require Num Gen_t2jfinite GenFiniteProofs.
+Theorem C03_t2j_double_finite_from_source :
+  forall b, 0 <= b -> Gen_t2jfinite.double_not_finite b = negb (Num.f64_is_finite b).
+Proof. exact GenFiniteProofs.double_not_finite_is_finite. Qed.
+Print Assumptions C03_t2j_double_finite_from_source.
